@@ -227,6 +227,9 @@ CHECKS["C17"] = {
         {"name": "credentials", "pkg": "pure", "run": "^TestC17$",
          "quick": {"shards": 4, "checks": 1500, "timeout_s": 300},
          "thorough": {"shards": 16, "checks": 20000, "timeout_s": 1500}},
+        {"name": "concurrent-handler", "pkg": "pure", "run": "^TestC17Concurrent$", "race": True,
+         "quick": {"shards": 1, "checks": 1, "timeout_s": 300},
+         "thorough": {"shards": 2, "checks": 1, "timeout_s": 900}},
     ],
 }
 
